@@ -5,6 +5,7 @@ import Penguin.Model.Link
 import Penguin.Model.Mux
 import Penguin.Lemmas.Link
 import Penguin.Lemmas.LinkGlue
+import Penguin.Lemmas.PairCor
 
 namespace Penguin.C05
 open Penguin Penguin.Link
@@ -78,6 +79,41 @@ theorem peer_finish_keeps_write_side (e : EP) (fid i : Nat) (o : Obj) (ig : Bool
     (processFrame e (.finish fid) ig).1.outq = e.outq ∧
     (processFrame e (.finish fid) ig).1.flows = e.flows :=
   Mux.processFrame_finish_glue e fid i o ig hs ho
+
+
+/-! ### The same for two whole endpoint models joined by FIFO wires (`Penguin.Pair`) -/
+
+open Penguin.Mux Penguin.Pair in
+/-- On every flow established on both endpoints, in every reachable state of the pair: if a read on
+    `b`'s stream has returned end-of-stream, then `a` had shut its direction down and `b` has read
+    exactly the bytes `a` wrote — never earlier, never fewer. -/
+theorem pair_eof_sound {oa ob : Opts} {ra rb : List Nat} (c : Cfg oa ob ra rb) (as : List (Pair.Side × Pair.Act))
+    {x i j : Nat} (e : Established (Pair.run (Pair.init oa ob ra rb) as) x i j)
+    (he : (Pair.run (Pair.init oa ob ra rb) as).gb.eof j = true) :
+    let p := Pair.run (Pair.init oa ob ra rb) as
+    ∃ oA, p.a.objs[i]? = some oA ∧ oA.finishSent = true ∧ p.gb.rlog j = p.ga.wlog i :=
+  established_eof (reach_inv c as) e he
+
+open Penguin.Mux Penguin.Pair in
+/-- … and in the direction `b → a`. -/
+theorem pair_eof_sound_rev {oa ob : Opts} {ra rb : List Nat} (c : Cfg oa ob ra rb) (as : List (Pair.Side × Pair.Act))
+    {x i j : Nat} (e : Established (Pair.run (Pair.init oa ob ra rb) as) x i j)
+    (he : (Pair.run (Pair.init oa ob ra rb) as).ga.eof i = true) :
+    let p := Pair.run (Pair.init oa ob ra rb) as
+    ∃ oB, p.b.objs[j]? = some oB ∧ oB.finishSent = true ∧ p.ga.rlog i = p.gb.wlog j :=
+  established_eof (reach_inv c as).swap e.swap he
+
+/-! Non-vacuity of the pair theorems: a concrete run (windows 2, threshold 1) that opens a stream,
+    writes three bytes, reads them in two reads, shuts down and reads end-of-stream. -/
+private def pcfg : Mux.Opts := { rwnd := 2, threshold := 1 }
+private def pacts : List (Pair.Side × Pair.Act) :=
+  [(.A, .open 1 [104] 80), (.A, .xmit), (.B, .recv), (.B, .xmit), (.A, .recv), (.A, .runDone), (.B, .accept),
+   (.A, .write 0 [1, 2, 3]), (.A, .xmit), (.B, .recv), (.B, .read 0 2), (.B, .read 0 9), (.B, .xmit), (.A, .recv),
+   (.A, .shutdown 0), (.A, .xmit), (.B, .recv), (.B, .read 0 9)]
+example : Pair.Cfg pcfg pcfg [7, 8] [9, 10] := ⟨by decide, by decide, by decide, by decide⟩
+example : Pair.Established (Pair.run (Pair.init pcfg pcfg [7, 8] [9, 10]) pacts) 7 0 0 :=
+  ⟨by decide, by decide, by decide, by decide⟩
+example : (Pair.run (Pair.init pcfg pcfg [7, 8] [9, 10]) pacts).gb.eof 0 = true := by decide
 
 /-! Non-vacuity -/
 example : (step (run (init 2 1) [.write [1], .write [], .deliver]) (.read 4)).2 = .data [1] := by decide
